@@ -1,3 +1,3 @@
 From Coq Require Extraction ExtrOcamlBasic.
-From V Require Import Model.C31 Model.Tpl Model.TplCl Model.TplProd.
-Extraction "tplmmodel.ml" parse_file compile match_doc msize is_productive.
+From V Require Import Model.C31 Model.Tpl Model.TplCl Model.TplProd Model.TplRp.
+Extraction "tplmmodel.ml" parse_file compile match_doc msize is_productive match_doc_rp attach.
